@@ -27,6 +27,9 @@ theorem jzsOf_cons_skip (o : Int) (n : Nat) (ps : List P) : jzsOf o (.skip n :: 
 theorem jzsOf_cons_loop (o : Int) (csz : Nat) (cond : Node) (b : List P) (ps : List P) :
     jzsOf o (.loop csz cond b :: ps) = jzsOf (o + (P.loop csz cond b).size) ps := by
   simp [jzsOf]
+theorem jzsOf_cons_loopX (o : Int) (csz : Nat) (cond : Node) (b1 : List P) (csz2 : Nat) (cond2 : Node) (t b2 : List P) (ps : List P) :
+    jzsOf o (.loopX csz cond b1 csz2 cond2 t b2 :: ps) = jzsOf (o + (P.loopX csz cond b1 csz2 cond2 t b2).size) ps := by
+  simp [jzsOf]
 theorem jzsOf_cons_if (o : Int) (csz : Nat) (cond : Node) (t e : List P) (ps : List P) :
     jzsOf o (.ifThen csz cond t e :: ps) =
       .jz (o + csz) cond (o + csz + 3 + P.sizes t + (if e.isEmpty then 0 else 3)) :: jzsOf (o + (P.ifThen csz cond t e).size) ps := by
@@ -77,6 +80,18 @@ theorem scan_emit (r : Option Int) : ∀ (ps : List P) (o : Int) (s : ScanSt), P
         (exitIf (o + csz) cond :: tgtC (o + csz + 3) b)) hs (by omega) (by simp [rawLoop, Node.cls])
       obtain ⟨s', e1, e2, e3⟩ := ih (o + (P.loop csz cond b).size) (resetSt s) hps hrb' (hs.reset.mono (by omega))
       refine ⟨s', ?_, by rw [sizes_cons]; simpa [Int.add_assoc] using e2, by rw [e3, resetSt_jzs, jzsOf_cons_loop]⟩
+      simp only [emit, emit1, List.cons_append, List.nil_append, if_true]
+      rw [foldlM_cons_ok st]; exact e1
+    | loopX csz cond b1 csz2 cond2 t b2 =>
+      have hsz := size_loopX csz cond b1 csz2 cond2 t b2
+      have st := scan_plain_step r s o (o + csz + 3 + (P.sizes b1 + (csz2 + 3 + P.sizes t + 3) + P.sizes b2))
+        (rawLoop o (o + csz + 3 + (P.sizes b1 + (csz2 + 3 + P.sizes t + 3) + P.sizes b2))
+          (exitIf (o + csz) cond :: (tgtC (o + csz + 3) b1 ++
+            .stmt (o + csz + 3 + P.sizes b1 + csz2) (.ifThen (o + csz + 3 + P.sizes b1 + csz2) cond2
+              (tgtC (o + csz + 3 + P.sizes b1 + csz2 + 3) t ++ [exitRepeatStmt (o + csz + 3 + P.sizes b1 + csz2 + 3 + P.sizes t)]) []) ::
+            tgtC (o + csz + 3 + P.sizes b1 + csz2 + 3 + P.sizes t + 3) b2))) hs (by omega) (by simp [rawLoop, Node.cls])
+      obtain ⟨s', e1, e2, e3⟩ := ih (o + (P.loopX csz cond b1 csz2 cond2 t b2).size) (resetSt s) hps hrb' (hs.reset.mono (by omega))
+      refine ⟨s', ?_, by rw [sizes_cons]; simpa [Int.add_assoc] using e2, by rw [e3, resetSt_jzs, jzsOf_cons_loopX]⟩
       simp only [emit, emit1, List.cons_append, List.nil_append, if_true]
       rw [foldlM_cons_ok st]; exact e1
     | ifThen csz cond t e =>
